@@ -448,7 +448,9 @@ func execC19(t *testing.T, plan any, r *simkit.Run) {
 				return nil
 			}
 			finOK, justOK := false, false
-			if intermediate {
+			{
+				// (also when the chain itself is still the old one: the finality records of the first of
+				// several connected blocks are written before that block)
 				gf, pf, qf := byName(got.Fin), byName(pre.Fin), byName(post.Fin)
 				finOK = gf != nil && pf != nil && qf != nil && model.IsAncestor(pf, gf) && model.IsAncestor(gf, qf)
 				gj, pj, gbst := byName(got.Just), byName(pre.Just), byName(got.Best)
